@@ -13,6 +13,15 @@ CLAIMED = {
         'and extracted with ExtrOcamlBasic), harness native decision of the property used only for the search / replay.',
    technique='Coq proof over source-regenerated kernel (translator) + correspondence check + exhaustive search on failure',
    ref='DESIGN.md section 6 C12'),
+ 'C13': dict(
+   text='Coq theorems: the YUV->RGB kernels that tools/rs2v.py regenerates from vp8.rs on every run (mulhi, clip, and the per-pixel blocks of '
+        'fill_rgb_row / fill_rgba_row: pair, odd tail, RGB and RGBA) equal libwebp yuv.h (Spec/YUV.v) for all integer inputs in byte range, proved '
+        'algebraically (no enumeration); row theorems by induction two pixels at a time cover even/odd/tail positions and the untouched alpha byte; '
+        'plane theorems cover chroma row y/2 for every width >= 1 and height.',
+   note='Trusted: Coq kernel, rs2v translator, hand model of the zip/chunks_exact row and plane loops (Model/Yuv.v, correspondence-checked through hooks '
+        'verif::fill_rgb/fill_rgba and exact only on the call pattern len(buf)=bpp*len(y), chroma rows long enough), transcription of yuv.h into Spec/YUV.v.',
+   technique='Coq proof over source-regenerated kernels (translator) + row/plane induction + correspondence check + exhaustive 2^24 search on failure',
+   ref='DESIGN.md section 6 C13'),
 }
 PENDING = {}
 
